@@ -8,6 +8,80 @@ import foolscap.negotiate as neg
 from foolscap.api import Tub
 
 
+# ------------------------------------------------------------------------------------------ the TLS layer
+# harness.implenv replaces crypto.peerFromTransport wholesale.  C05 is about which certificate the code takes as the
+# peer's identity, so here the tree's OWN crypto.peerFromTransport runs (re-read from crypto.py, because implenv has
+# overwritten the module attribute) and the fake is one level lower: End.getHandle() returns an object with the
+# pyOpenSSL Connection methods a peer's presentation is visible through.  What a peer can present: the LEAF
+# certificate (End.peer_cert: the one whose key the handshake proves -- trusted) plus arbitrary further certificates
+# it merely sends along (End.peer_extra / Tub.presented_extra: other Tubs' public certificates).
+import importlib.util
+import foolscap.crypto as _fcrypto
+
+
+def _pristine_crypto():
+    spec = importlib.util.spec_from_file_location("foolscap._c05_crypto_as_on_disk", _fcrypto.__file__)
+    m = importlib.util.module_from_spec(spec)
+    spec.loader.exec_module(m)
+    return m
+
+
+_PRISTINE = _pristine_crypto()
+
+
+class FakeHandle:
+    """the part of OpenSSL.SSL.Connection through which the peer's certificates can be read"""
+
+    def __init__(self, end):
+        self.end = end
+
+    def _peer_tub(self):
+        l = self.end.link
+        return getattr(l, "server_tub", None) if self.end.side == 0 else getattr(l, "client_tub", None)
+
+    def _extras(self):
+        ex = getattr(self.end, "peer_extra", None)
+        if ex is None:
+            ex = getattr(self._peer_tub(), "presented_extra", [])
+        return [c.original for c in ex]
+
+    def get_peer_certificate(self):
+        leaf = self.end.peer_cert
+        return None if leaf is None else leaf.original
+
+    def get_peer_cert_chain(self):
+        # OpenSSL: what the peer SENT, unverified; on the accepting side the leaf is not part of it
+        leaf = self.end.peer_cert
+        chain = ([leaf.original] if (leaf is not None and self.end.side == 0) else []) + self._extras()
+        return chain or None
+
+    def get_verified_chain(self):
+        # self-signed leaf accepted by alwaysValidate: the verified chain is the leaf alone
+        leaf = self.end.peer_cert
+        return None if leaf is None else [leaf.original]
+
+    def get_certificate(self):
+        own = getattr(self.end, "own_cert", None)
+        return None if own is None else own.original
+
+
+def _getHandle(self):
+    return FakeHandle(self)
+
+
+E.End.getHandle = _getHandle
+
+
+def use_real_certificate_path():
+    """(re)install the tree's own crypto.peerFromTransport; implenv.install_clock() puts its stub back on every reset"""
+    neg.crypto.peerFromTransport = _PRISTINE.peerFromTransport
+
+
+def reset():
+    E.reset_clock()
+    use_real_certificate_path()
+
+
 class T(Referenceable):
     def remote_hi(self):
         return 42
@@ -104,7 +178,7 @@ class Trial:
 
     def __init__(self, cfg, extra_mangle=None):
         self.cfg = cfg
-        E.reset_clock()
+        reset()
         self.net = net = Net()
         arr = arrangement(cfg["a_pos"])
         self.ids = ids = {k: v[0] for k, v in arr.items()}
@@ -125,6 +199,10 @@ class Trial:
             self.B.presented_cert = certs[cfg["srv_cert"]]
         if cfg.get("cli_cert", "A") != "A":
             self.A.presented_cert = certs[cfg["cli_cert"]]
+        if cfg.get("srv_extra"):
+            self.B.presented_extra = [certs[x] for x in cfg["srv_extra"]]
+        if cfg.get("cli_extra"):
+            self.A.presented_extra = [certs[x] for x in cfg["cli_extra"]]
         self.attached = []      # every brokerAttached call: (tub, key, isClient, independent id of the transport's certificate)
         self.bad = []           # oracle violations observed while running
         for name, t in self.tubs.items():
@@ -171,8 +249,13 @@ class Trial:
                     self.bad.append(("broker-tubref-differs-from-key", name, tubref.getTubID(),
                                      b.remote_tubref and b.remote_tubref.getTubID()))
 
+    keep_sending = False
+
     def run_net(self):
         net = self.net
+        if self.keep_sending:
+            pump_keep_sending(net, after_each=self.poll)
+            return
         n = 0
         while True:
             c = net.deliverable()
@@ -281,8 +364,9 @@ def legit_cell(cfg):
     return srv_c == srv_cl and cli_c == cli_cl and srv_cl == cfg.get("dial", "B") and get == "B"
 
 
-def run_cell(cfg, extra_mangle=None):
+def run_cell(cfg, extra_mangle=None, keep_sending=False):
     t = Trial(cfg, extra_mangle)
+    t.keep_sending = keep_sending
     try:
         t.go()
     finally:
@@ -399,8 +483,12 @@ def gift_trial(a_pos, target_honest):
 def history_trial(rng, length):
     a_pos = rng.choice(["hi", "lo"])
     env = Env3(a_pos)
+    env.t.keep_sending = True       # bytes under way reach an end that has already hung up, until connectionLost
     A, ids, net = env.A, env.ids, env.net
     tubs = env.tubs
+    cert_r = Tub(certData=E.pem(3)).myCertificate     # the raw peers' own identity R: no Tub of this network has it
+    id_r = independent_tubid(cert_r)
+    nraw = [0]
     problems, ops, model_ops, tables = [], [], [], []
     cur = dict(first_link=10 ** 9, side=None, claim=None)
 
@@ -414,8 +502,50 @@ def history_trial(rng, length):
         for name in "ABC":
             tubs[name].registerReference(T(), name="svc")
         for i in range(length):
-            kind = rng.choice(["out", "out", "in", "in", "detach", "loopback"])
-            if kind in ("out", "in"):
+            kind = rng.choice(["out", "out", "in", "in", "detach", "loopback", "raw-out", "raw-in"])
+            if kind in ("raw-out", "raw-in"):
+                # a scripted peer that authenticates as R, shows Tub x's public certificate as an extra, and sends header
+                # blocks of every kind (claiming R or x) without stopping; it hangs up at the end of the operation.
+                x = rng.choice(["B", "C"])
+                n = rng.choice([1, 2, 3])
+                blocks = [rng.choice(BLOCK_KINDS) for _ in range(n)]
+                cuts = {j for j in range(n - 1) if rng.random() < 0.6}
+                extras = rng.choice([[], [env.t.certs[x]]])
+                data = [block_bytes(k, id_r, ids[x]) for k in blocks]
+                chunks, curb = [], b""
+                for j, d in enumerate(data):
+                    curb += d
+                    if j in cuts or j == n - 1:
+                        chunks.append(curb)
+                        curb = b""
+                res = []
+                if kind == "raw-out":
+                    nraw[0] += 1
+                    raw = RawServer(cert_r, extras, chunks)
+                    net.tubs["raw%d" % nraw[0]] = raw
+                    A.getReference("pb://%s@fake:raw%d:1/svc" % (ids[x], nraw[0])).addBoth(res.append)
+                    env.settle(res)
+                    protos = raw.protos
+                else:
+                    link = E.Link(net, "L%d" % len(net.links))
+                    cend, send_ = link.ends
+                    ps = A.getListeners()[0].buildProtocol(E.Addr())
+                    pc = RawProto("client", chunks, get_id=ids["A"])
+                    cend.protocol, send_.protocol = pc, ps
+                    send_.peer_cert, send_.peer_extra = cert_r, extras
+                    cend.peer_cert = A.myCertificate
+                    link.client_tub, link.server_tub = None, A
+                    ps.makeConnection(send_)
+                    pc.makeConnection(cend)
+                    env.settle()
+                    protos = [pc]
+                for pr in protos:
+                    pr.transport.loseConnection()
+                env.settle()
+                ops.append((kind, x, blocks, sorted(cuts), bool(extras)))
+                model_ops.append(("detach", "R"))      # a no-op of the table model (R is never a key of it)
+                # no model event: R is nobody's key in this table; whatever such a peer achieves must leave the table alone
+            elif kind in ("out", "in"):
                 x = rng.choice(["B", "C"])
                 other = "C" if x == "B" else "B"
                 cert = rng.choice([x, x, x, "none", other, "A"])
@@ -454,6 +584,8 @@ def history_trial(rng, length):
                 model_ops.append(("loopback",))
             tab = []
             for tr, b in A.brokers.items():
+                if tr.getTubID() == id_r:
+                    continue
                 if isinstance(b.transport, E.End):
                     tab.append((tr.getTubID(), independent_tubid(b.transport.peer_cert), False))
                 else:
@@ -469,3 +601,239 @@ def history_trial(rng, length):
         return dict(a_pos=a_pos, ops=ops, model_ops=model_ops, tables=tables, problems=problems)
     finally:
         env.close()
+
+
+# ------------------------------------------------------------------------------------------ a peer that keeps sending
+# A scripted raw peer (not a Tub) talks to one real Tub ("the victim", Tub A) and sends header blocks of every kind in
+# any chunking, no matter what the victim answers.  Bytes that are already under way are delivered to the victim even
+# after it called transport.loseConnection() (as on a real socket), until connectionLost is delivered, which comes last.
+from twisted.internet.error import ConnectionDone as _ConnectionDone
+from twisted.python import failure as _failure
+
+BLOCK_KINDS = ["Hleaf", "Hx", "Habsent", "D", "Dbad", "E", "J"]
+
+
+def block_bytes(kind, leaf_id, x_id):
+    from foolscap import vocab
+    N = neg.Negotiation
+
+    def hello(claim):
+        lines = ["banana-negotiation-range: %d %d" % (N.minVersion, N.maxVersion),
+                 "initial-vocab-table-range: %d %d" % tuple(N.initialVocabTableRange),
+                 "my-incarnation: 0123456789abcdef"]
+        if claim is not None:
+            lines.append("my-tub-id: %s" % claim)
+        return ("\r\n".join(lines) + "\r\n\r\n").encode()
+    if kind == "Hleaf":
+        return hello(leaf_id)
+    if kind == "Hx":
+        return hello(x_id)
+    if kind == "Habsent":
+        return hello(None)
+    if kind == "D":
+        idx = N.initialVocabTableRange[1]
+        return ("banana-decision-version: %d\r\ncurrent-connection: 0123456789abcdef 1\r\n"
+                "initial-vocab-table-index: %d %s\r\n\r\n" % (N.maxVersion, idx, vocab.hashVocabTable(idx))).encode()
+    if kind == "Dbad":
+        return b"banana-decision-version: 99\r\n\r\n"
+    if kind == "E":
+        return b"error: go away\r\n\r\n"
+    if kind == "J":
+        return b"this line has no colon\r\n\r\n"
+    if kind == "B":                      # RPC-protocol bytes (a PING and a short string token), no header terminator
+        return b"\x00\x85\x03\x82abc"
+    raise ValueError(kind)
+
+
+class RawProto:
+    def __init__(self, role, chunks, get_id=None):
+        self.role, self.chunks, self.get_id = role, chunks, get_id
+        self.buf = b""
+        self.started = False
+        self.lost = False
+        self.received = []
+
+    def makeConnection(self, transport):
+        self.transport = transport
+        if self.role == "client":
+            transport.write(("GET /id/%s HTTP/1.1\r\nHost: fake\r\nUpgrade: TLS/1.0\r\nConnection: Upgrade\r\n\r\n" % self.get_id).encode())
+            self.blast()
+
+    def blast(self):
+        self.started = True
+        for c in self.chunks:
+            self.transport.write(c)
+
+    def dataReceived(self, d):
+        self.received.append(d)
+        self.buf += d
+        if self.role == "server" and not self.started and b"\r\n\r\n" in self.buf:
+            self.transport.write(b"HTTP/1.1 101 Switching Protocols\r\nUpgrade: TLS/1.0, PB/1.0\r\nConnection: Upgrade\r\n\r\n")
+            self.blast()
+
+    def connectionLost(self, why):
+        self.lost = True
+
+
+class RawServer:
+    """stands where a Tub stands in harness.implenv.FakeEndpoint: a listener that builds the scripted protocol"""
+
+    def __init__(self, leaf, extras, chunks):
+        self.presented_cert = self.myCertificate = leaf
+        self.presented_extra = extras
+        self.chunks = chunks
+        self.protos = []
+
+    def getListeners(self):
+        return [self]
+
+    def buildProtocol(self, addr):
+        p = RawProto("server", self.chunks)
+        self.protos.append(p)
+        return p
+
+
+PHASE_NAMES = None
+
+
+def phase_name(n):
+    global PHASE_NAMES
+    if PHASE_NAMES is None:
+        PHASE_NAMES = {neg.PLAINTEXT: "PhPlaintext", neg.ENCRYPTED: "PhEncrypted", neg.DECIDING: "PhDeciding",
+                       neg.BANANA: "PhBanana", neg.ABANDONED: "PhAbandoned"}
+    if "dataReceived" in n.__dict__:      # switchToBanana redirected the transport's input to the Broker
+        return "PhBanana"
+    return PHASE_NAMES[n.receive_phase]
+
+
+def pump_keep_sending(net, delivered=None, after_each=None):
+    """deliver everything that is under way.  Unlike implenv.Net.step, bytes are handed to a protocol that has already
+    called transport.loseConnection() (they were in flight; a real transport keeps delivering until connectionLost), and
+    local connectionLost notifications come last."""
+    for _ in range(100000):
+        items = net.deliverable()
+        if not items:
+            return
+        dat = [c for c in items if not isinstance(c[1], tuple)]
+        l, what = (dat or items)[0]
+        if isinstance(what, tuple):
+            e = what[1]
+            l.pending_local_close.remove(e)
+            if e.protocol and not e.lost:
+                e.lost = True
+                e.protocol.connectionLost(_failure.Failure(_ConnectionDone()))
+        else:
+            d = l.q[what].pop(0)
+            dst = l.ends[1 - what]
+            if d is None:
+                if not dst.lost:
+                    dst.lost = dst.closed = True
+                    dst.protocol.connectionLost(_failure.Failure(_ConnectionDone()))
+            elif not dst.lost:
+                if net.mangle:
+                    d = net.mangle(l, what, d)
+                if d:
+                    dst.protocol.dataReceived(d)
+                    E.turn()
+                    if delivered:
+                        delivered(dst, d)
+        E.turn()
+        if after_each:
+            after_each()
+    raise RuntimeError("no quiescence")
+
+
+def raw_trial(role, a_pos, leaf, x, extras, blocks, cuts):
+    """role: what the victim (Tub A) is ('Client' dials a FURL naming Tub x at the raw peer's location; 'Server' is
+    connected to).  The raw peer authenticates with `leaf`'s certificate, sends `extras` along, and sends `blocks`
+    (kinds) cut into chunks after the positions in `cuts`.  -> observations after every chunk + oracle problems."""
+    reset()
+    net = Net()
+    arr = arrangement(a_pos)
+    ids = {k: v[0] for k, v in arr.items()}
+    negs = []
+    neglog = []
+
+    class RecNeg(neg.Negotiation):
+        def __init__(self, *a, **kw):
+            neg.Negotiation.__init__(self, *a, **kw)
+            negs.append(self)
+
+        def negotiationFailed(self):
+            r = self.failureReason
+            neglog.append(r.type.__name__ if r is not None else None)
+            return neg.Negotiation.negotiationFailed(self)
+    A = make_tub(net, "a", arr["A"][1], RecNeg)
+    certs = {}
+    for k in "BC":
+        certs[k] = Tub(certData=arr[k][1]).myCertificate
+    certs["A"] = A.myCertificate
+    attached = []
+    orig = A.brokerAttached
+
+    def brokerAttached(tubref, broker, isClient):
+        tr = broker.transport
+        attached.append((tubref.getTubID(), bool(isClient), independent_tubid(tr.peer_cert) if isinstance(tr, E.End) else "loopback"))
+        return orig(tubref, broker, isClient)
+    A.brokerAttached = brokerAttached
+    leaf_id, x_id = ids[leaf], ids[x]
+    data = [block_bytes(k, leaf_id, x_id) for k in blocks]
+    chunks, cur = [], b""
+    for i, d in enumerate(data):
+        cur += d
+        if i in cuts or i == len(data) - 1:
+            chunks.append(cur)
+            cur = b""
+    res = []
+    try:
+        A.registerReference(T(), name="svc")
+        if role == "Client":
+            raw = RawServer(certs[leaf], [certs[e] for e in extras], chunks)
+            net.tubs["raw"] = raw
+            A.getReference("pb://%s@fake:raw:1/svc" % x_id).addBoth(res.append)
+            E.turn()
+            victim_side = 0
+        else:
+            link = E.Link(net, "L%d" % len(net.links))
+            cend, send_ = link.ends
+            ps = A.getListeners()[0].buildProtocol(E.Addr())
+            pc = RawProto("client", chunks, get_id=ids["A"])
+            cend.protocol, send_.protocol = pc, ps
+            send_.peer_cert, send_.peer_extra = certs[leaf], [certs[e] for e in extras]
+            cend.peer_cert = A.myCertificate
+            link.client_tub, link.server_tub = None, A
+            ps.makeConnection(send_)
+            pc.makeConnection(cend)
+            E.turn()
+            victim_side = 1
+        obs = []
+        script_left = list(chunks)
+
+        def delivered(dst, d):
+            if dst.side == victim_side and script_left and d == script_left[0]:
+                script_left.pop(0)
+                n = negs[0]
+                their = getattr(n, "theirTubRef", None)
+                obs.append((phase_name(n), their.getTubID() if their is not None else None, [k for (k, ic, cid) in attached]))
+        pump_keep_sending(net, delivered)
+        problems = []
+        for (k, ic, cid) in attached:
+            if cid is None or k is None or cid != k:
+                problems.append(("attached-unproven", "Tub A registered a connection under %s; the peer authenticated with the certificate of %s" % (k, cid)))
+            if role == "Client" and k != x_id:
+                problems.append(("client-attached-other-than-dialled", "Tub A dialled %s and registered %s" % (x_id, k)))
+        for tubref, b in A.brokers.items():
+            if isinstance(b.transport, E.End) and independent_tubid(b.transport.peer_cert) != tubref.getTubID():
+                problems.append(("table-entry-unproven", "Tub A keeps %s for a transport authenticated as %s"
+                                 % (tubref.getTubID(), independent_tubid(b.transport.peer_cert))))
+        for r_ in res:
+            if hasattr(r_, "callRemote"):
+                if leaf_id != x_id:
+                    problems.append(("getReference-succeeded-without-proof", "getReference(FURL naming %s) returned a reference over a "
+                                     "connection authenticated as %s" % (x_id, leaf_id)))
+        return dict(role=role, a_pos=a_pos, leaf=leaf, x=x, extras=extras, blocks=blocks, cuts=sorted(cuts), obs=obs,
+                    n_chunks=len(chunks), attached=attached, neglog=neglog, problems=problems,
+                    claims=dict(Hleaf=leaf_id, Hx=x_id))
+    finally:
+        A.stopService()
+        E.turn()
